@@ -117,6 +117,7 @@ pub open spec fn uattr_found_canonical(inp: Seq<u8>) -> bool {
 }
 
 /// C05 (length): parse then serialise gives back as many octets as were consumed, whatever the input
+#[verifier::spinoff_prover]
 pub proof fn lemma_uattr_parse_len(x: UserAttribute, ph: PacketHeader, inp: Seq<u8>, rest: Seq<u8>)
     requires uattr_parse_post(x, ph, inp, rest)
     ensures inp.len() == uattr_wire(x).len() + rest.len(), uattr_inv(x), // [C05]
@@ -138,7 +139,13 @@ pub proof fn lemma_uattr_parse_len(x: UserAttribute, ph: PacketHeader, inp: Seq<
         UserAttribute::Unknown { packet_header, subpacket_len, typ, data } => {}
     }
 }
+proof fn lemma_cat4(a: Seq<u8>, b: Seq<u8>, c: Seq<u8>, d: Seq<u8>)
+    ensures a + (b + (c + d)) == a + b + c + d
+{
+    assert(a + (b + (c + d)) =~= a + b + c + d);
+}
 /// C05 (identical octets): a canonically encoded packet body is the wire form of the value parsed from it
+#[verifier::spinoff_prover]
 pub proof fn lemma_uattr_parse_canonical(x: UserAttribute, ph: PacketHeader, inp: Seq<u8>, rest: Seq<u8>)
     requires uattr_parse_post(x, ph, inp, rest), uattr_found_canonical(inp)
     ensures inp == uattr_wire(x) + rest // [C05]
@@ -146,21 +153,28 @@ pub proof fn lemma_uattr_parse_canonical(x: UserAttribute, ph: PacketHeader, inp
     let l = uattr_splen(x);
     lemma_splen_enc_dec(inp);
     let after = inp.skip(splen_w(l));
+    assert(inp == splen_wire(l) + after);
+    let t1 = seq![inp[splen_w(l)]];
     let avail = after.skip(1);
+    assert(after =~= t1 + avail);
     let kb = min_nat((splen_n(l) - 1) as nat, avail.len()) as int;
     let body = avail.subrange(0, kb);
-    assert(after =~= seq![inp[splen_w(l)]] + body + rest);
+    assert(avail =~= body + rest);
     match x {
         UserAttribute::Image { packet_header, subpacket_len, header, data } => {
+            assert(imghdr_found_canonical(body));
             lemma_imghdr_parse_canonical(header, body, data@);
-            assert(inp =~= uattr_wire(x) + rest);
+            assert(body == uattr_body(x));
         }
         UserAttribute::Unknown { packet_header, subpacket_len, typ, data } => {
-            assert(inp =~= uattr_wire(x) + rest);
+            assert(body == uattr_body(x));
         }
     }
+    assert(t1 == seq![uattr_type_octet(x)]);
+    lemma_cat4(splen_wire(l), t1, body, rest);
 }
 /// C05: parse(serialise(x) ++ t) == x for every canonical value, incl. the STORED length form, leaving t
+#[verifier::spinoff_prover]
 pub proof fn lemma_uattr_round_trip(x: UserAttribute, t: Seq<u8>, y: UserAttribute, ph: PacketHeader, rest: Seq<u8>)
     requires uattr_canon(x), uattr_parse_post(y, ph, uattr_wire(x) + t, rest)
     ensures uattr_eq(y, x), uattr_header(y) == ph, rest == t
